@@ -6,6 +6,9 @@ import (
 	"fmt"
 	"os"
 
+	"github.com/go-logr/logr"
+	ctrllog "sigs.k8s.io/controller-runtime/pkg/log"
+
 	"verifharness/kit"
 )
 
@@ -15,11 +18,18 @@ func main() {
 		writeTables(c.Tables)
 		return
 	}
+	ctrllog.SetLogger(logr.Discard())
 	nMut, nRand := runPairs(c)
-	c.Meta.Rule = fmt.Sprintf("hash pairs: corpus + every one of %d mutation operators on three base pools + %d random pools with 1..k operators (at most one of class Differ). non-trivial = every pair (distinct by the encoded values)", nMut, nRand)
+	nSys := runSystem(c)
+	c.Meta.Rule = fmt.Sprintf("hash pairs: corpus + every one of %d mutation operators on three base pools + %d random pools with 1..k operators (at most one of class Differ). non-trivial = every pair (distinct by the encoded values). system: %d generated NodePools (template labels, requirements over custom and well-known keys, pod requirements) through hash controller, NewNodeClaimTemplate, ToNodeClaim, a random permitted launch, PopulateNodeClaimDetails and 1-3 drift reconciles after edits (ignored / hashed fields, requirements, hash-version skew, catalogue, provider answers, launch state); non-trivial = at least one reconcile ran, distinct by the whole case", nMut, nRand, nSys)
 	c.Meta.Corr = []string{
 		"NodePool.Hash() equality on template pairs = C15.Model.same_hash (symbolic hashstructure walk over the regenerated field table)",
+		"reflect struct layout of the encoded values = gen/C15_fields.v (C15.Model.conforms)",
+		"nodepool/hash.Controller.Reconcile annotations = C15.DriftModel.hash_reconcile",
+		"NewNodeClaimTemplate + ToNodeClaim labels in C15.DriftModel.claim_labels_allowed (Requirement.Any relational)",
+		"lifecycle.PopulateNodeClaimDetails labels = C15.DriftModel.populate",
+		"nodeclaim/disruption.Controller.Reconcile Drifted condition = C15.DriftModel.drift_reconcile (static, requirements, instance type, provider, cache, launch gate)",
 	}
-	c.Finish(shardHeader(), "case", "check_all", 450)
+	c.Finish(shardHeader(), "C15.Check.case", "C15.Check.check_all", 450)
 	cons.rewriteShards(c.Out, c.Meta.Shards)
 }
